@@ -18,7 +18,11 @@ void harness(void){
     static htp_uri_t inc, norm;
     bstr *p=bstr_alloc(N); __CPROVER_assume(p!=NULL);
     size_t len=in_size_le(N); unsigned char raw[N];
-    for(size_t i=0;i<N;i++){ raw[i]=in_u8(); bstr_ptr(p)[i]=raw[i]; }
+    for(size_t i=0;i<N;i++){ raw[i]=in_u8();
+#ifdef DIGITS
+        __CPROVER_assume(raw[i]>='0'&&raw[i]<='9');
+#endif
+        bstr_ptr(p)[i]=raw[i]; }
     bstr_adjust_len(p,len);
     inc.port=p;
     htp_status_t rc=htp_normalize_parsed_uri(&TX,&inc,&norm);
